@@ -16,13 +16,14 @@ import (
 // ---------------------------------------------------------------------------------------------
 
 type Clause struct {
-	Label string   // "" if unlabelled
-	Props []string // properties this clause belongs to (from the label C01.xyz and extra tags)
-	Expr  *SExpr
-	Text  string
-	Kind  string // requires|ensures|invariant|assume
-	Line  int
-	File  string
+	Label    string   // "" if unlabelled
+	Props    []string // properties this clause belongs to (from the label C01.xyz and extra tags)
+	NotProps []string // "-Cxx" tags: the clause is not part of the contract in these property modes
+	Expr     *SExpr
+	Text     string
+	Kind     string // requires|ensures|invariant|assume
+	Line     int
+	File     string
 }
 
 type LoopSpec struct {
@@ -39,42 +40,43 @@ type Param struct {
 }
 
 type Contract struct {
-	Key      string // canonical function key
-	RawName  string
-	PkgPath  string // package the contract file belongs to
-	File     string
-	Line     int
-	Extern   bool
-	Trusted  string
-	Props    []string
-	Params   []Param // externs only (recv first for methods)
-	Results  []Param // externs: declared; module functions: optional "returns"
-	Requires []*Clause
-	Ensures  []*Clause
-	Modifies []*SExpr
-	ModText  []string
-	ModCond  []*SExpr // optional guard per entry ("modifies X if COND", externs only)
-	HasMod   bool
-	Loops    map[int]*LoopSpec
-	NoFatal  bool
-	Fatal    bool // extern: never returns normally; calling it is a nofatal obligation
-	Overflow bool
-	Callback string // extern with special built-in handling
-	Lets     []Param
-	LetExprs []*SExpr
-	Assumes  []*Clause
-	Iface    bool // contract of an interface method (behavioural subtyping)
-	Pure     bool // extern without effects: no frame, no allocation
-	Opaque   bool // module function deliberately treated as extern (body outside the subset)
-	Split    []*SExpr // interface-valued expressions: every post is proved once per dynamic type
-	SplitTxt []string
-	Functional string // "functional NAME": the result is a function NAME(args) of the arguments (slices: content and length)
-	NoFrame  bool     // "modifies anything": top-level actor closures, no frame obligations (such a function cannot be called from a function under contract)
-	SplitRet bool     // prove every postcondition separately per return statement
-	Safety   []string // properties under which safe.*/nofatal/nopanic obligations are generated (default: all)
-	GhostDo  []*GhostAssign
-	GhostRet []*GhostAssign // ghost statements executed at exit (results in scope)
-	AtCalls  []*AtCall
+	Key          string // canonical function key
+	RawName      string
+	PkgPath      string // package the contract file belongs to
+	File         string
+	Line         int
+	Extern       bool
+	Trusted      string
+	Props        []string
+	Params       []Param // externs only (recv first for methods)
+	Results      []Param // externs: declared; module functions: optional "returns"
+	Requires     []*Clause
+	Ensures      []*Clause
+	Modifies     []*SExpr
+	ModText      []string
+	ModCond      []*SExpr // optional guard per entry ("modifies X if COND", externs only)
+	HasMod       bool
+	Loops        map[int]*LoopSpec
+	NoFatal      bool
+	Fatal        bool // extern: never returns normally; calling it is a nofatal obligation
+	Overflow     bool
+	Callback     string // extern with special built-in handling
+	Lets         []Param
+	LetExprs     []*SExpr
+	Assumes      []*Clause
+	Iface        bool     // contract of an interface method (behavioural subtyping)
+	Pure         bool     // extern without effects: no frame, no allocation
+	Opaque       bool     // module function deliberately treated as extern (body outside the subset)
+	Split        []*SExpr // interface-valued expressions: every post is proved once per dynamic type
+	SplitTxt     []string
+	Functional   string   // "functional NAME": the result is a function NAME(args) of the arguments (slices: content and length)
+	NoFrame      bool     // "modifies anything": top-level actor closures, no frame obligations (such a function cannot be called from a function under contract)
+	SplitRet     bool     // prove every postcondition separately per return statement
+	DispatchOnly []string // "dispatchonly Cxx ...": target of interface dispatch only in these modes; elsewhere call sites must exclude it
+	Safety       []string // properties under which safe.*/nofatal/nopanic obligations are generated (default: all)
+	GhostDo      []*GhostAssign
+	GhostRet     []*GhostAssign // ghost statements executed at exit (results in scope)
+	AtCalls      []*AtCall
 }
 
 // GhostAssign is a ghost statement executed at function entry: name[key] := value / name := value.
@@ -126,6 +128,7 @@ type Contracts struct {
 	Ghost     map[string]*GhostVar
 	Lemmas    []*Lemma
 	Sentinels map[string]bool // immutable global error values "pkgpath.Name"
+	NoSafety  map[string]bool // property modes declared "mode Cxx nosafety": no safe.*/nofatal/nopanic obligations (not claimed there)
 	Files     []string
 	TrustScan []string // every extern/trusted/assume/hint line verbatim
 	Closed    map[string]bool
@@ -135,14 +138,14 @@ var clauseKeywords = map[string]bool{
 	"func": true, "extern": true, "pure": true, "ghost": true, "props": true, "requires": true, "ensures": true,
 	"modifies": true, "loop": true, "invariant": true, "decreases": true, "nofatal": true, "overflow": true,
 	"let": true, "trusted": true, "returns": true, "fatal": true, "assume": true, "callback": true,
-	"lemma": true, "sentinel": true, "iface": true, "share": true, "effectfree": true, "opaque": true, "end": true, "ghostdo": true, "ghostret": true, "atcall": true, "split": true, "safety": true, "splitreturns": true, "functional": true,
+	"lemma": true, "mode": true, "dispatchonly": true, "sentinel": true, "iface": true, "share": true, "effectfree": true, "opaque": true, "end": true, "ghostdo": true, "ghostret": true, "atcall": true, "split": true, "safety": true, "splitreturns": true, "functional": true,
 }
 
 var labelRe = regexp.MustCompile(`^(requires|ensures|invariant|assume)\[([^\]]*)\]\s*(.*)$`)
 var propRe = regexp.MustCompile(`^C[0-9]{2,3}$`)
 
 func loadContracts(p *Program) (*Contracts, error) {
-	cs := &Contracts{ByKey: map[string]*Contract{}, Pure: map[string]*PureFn{}, Ghost: map[string]*GhostVar{}, Sentinels: map[string]bool{}, Closed: map[string]bool{}}
+	cs := &Contracts{ByKey: map[string]*Contract{}, Pure: map[string]*PureFn{}, Ghost: map[string]*GhostVar{}, Sentinels: map[string]bool{}, NoSafety: map[string]bool{}, Closed: map[string]bool{}}
 	for _, pkg := range p.Pkgs {
 		if !strings.HasPrefix(pkg.PkgPath, repoModule) {
 			continue
@@ -221,6 +224,8 @@ func (cs *Contracts) parseFile(p *Program, pkgPath, file, src string) error {
 				for _, t := range toks[1:] {
 					if propRe.MatchString(t) {
 						c.Props = append(c.Props, t)
+					} else if strings.HasPrefix(t, "-") && propRe.MatchString(t[1:]) {
+						c.NotProps = append(c.NotProps, t[1:])
 					}
 				}
 			}
@@ -250,7 +255,7 @@ func (cs *Contracts) parseFile(p *Program, pkgPath, file, src string) error {
 			if rc.kw == "extern" || rc.kw == "opaque" {
 				c.Extern = true
 				c.Opaque = rc.kw == "opaque"
-				text = strings.TrimSpace(strings.TrimPrefix(text, "func"))
+				text = strings.TrimSpace(strings.TrimPrefix(text, "func "))
 			}
 			if rc.kw == "iface" {
 				c.Iface = true
@@ -287,6 +292,12 @@ func (cs *Contracts) parseFile(p *Program, pkgPath, file, src string) error {
 				return fail(rc, "ghost var NAME TYPE")
 			}
 			cs.Ghost[f[0]] = &GhostVar{Name: f[0], Ty: strings.Join(f[1:], ""), PkgPath: pkgPath}
+		case "mode":
+			f := strings.Fields(rc.text)
+			if len(f) != 2 || !propRe.MatchString(f[0]) || f[1] != "nosafety" {
+				return fail(rc, "mode Cxx nosafety")
+			}
+			cs.NoSafety[f[0]] = true
 		case "sentinel":
 			for _, s := range strings.Fields(rc.text) {
 				cs.Sentinels[resolveQualified(p, pkgPath, s)] = true
@@ -484,6 +495,11 @@ func (cs *Contracts) parseFile(p *Program, pkgPath, file, src string) error {
 			if cur != nil {
 				cur.SplitRet = true
 			}
+		case "dispatchonly":
+			if cur == nil {
+				return fail(rc, "dispatchonly outside func")
+			}
+			cur.DispatchOnly = append(cur.DispatchOnly, strings.Fields(rc.text)...)
 		case "safety":
 			if cur == nil {
 				return fail(rc, "safety outside func")
@@ -592,6 +608,24 @@ func (cs *Contracts) parseHeader(p *Program, c *Contract, text string) error {
 	rest := text
 	recvTy := ""
 	recvName := ""
+	if strings.HasPrefix(text, "functype ") {
+		// extern functype "<types.TypeString of the func type>" (names): calls through function values of that type
+		q := strings.TrimSpace(strings.TrimPrefix(text, "functype"))
+		if !strings.HasPrefix(q, "\"") || strings.Count(q, "\"") < 2 {
+			return fmt.Errorf("functype needs a quoted type in %q", text)
+		}
+		j := strings.Index(q[1:], "\"") + 1
+		c.Key = q[1:j]
+		after := strings.TrimSpace(q[j+1:])
+		if strings.HasPrefix(after, "(") && strings.HasSuffix(after, ")") {
+			for _, n := range strings.Split(after[1:len(after)-1], ",") {
+				if n = strings.TrimSpace(n); n != "" {
+					c.Params = append(c.Params, Param{Name: n})
+				}
+			}
+		}
+		return nil
+	}
 	if strings.HasPrefix(rest, "(") {
 		j := matchParen(rest, 0)
 		if j < 0 {
@@ -794,6 +828,11 @@ func resolveQualified(p *Program, fromPkg, q string) string {
 }
 
 func (c *Clause) activeFor(prop string) bool {
+	for _, p := range c.NotProps {
+		if p == prop {
+			return false
+		}
+	}
 	if len(c.Props) == 0 || prop == "" {
 		return true
 	}
